@@ -44,6 +44,8 @@ def subspaces(tier):
     out += C.structure_subspaces(s4, 2, False, mode="bare")
     out += C.structure_subspaces(s3, 2, True, only_flexible=True, mode="bare")
     out += [sp for sp in C.structure_subspaces(s3, 3, False, canonical=True, mode="bare") if max(m[0] for m in sp["machines"]) == 2]
+    out += C.wide_subspaces(mode="bare", histories=("jobmajor", "reverse"))
+    out += C.wide_subspaces(mode="dispatcher", histories=("roundrobin",), pairs=((1, 8),))
     out += C.structure_subspaces(s3, 2, False, mode="env")
     out += C.structure_subspaces(s3, 2, True, only_flexible=True, mode="env")
     if tier == "thorough":
